@@ -731,6 +731,28 @@ def overwrites_stamps_and_shared_instances(ctx, workdir):
             continue
         if g is not None:
             ctx.fail("entries stamped by something that is not this version are served", meta, repr(g), None)
+    # ids never alias, however long they are and however much of them they share
+    # (ids as the readers make them: a 32-digit hash of the location, a dash and the kind of entry - and longer ones)
+    stem = "0123456789abcdef0123456789abcdef"
+    ids = [stem + "-wsdl", stem + "-document", stem + "0-document", stem[:-1] + "-wsdl", stem.upper() + "-wsdl",
+           "mx" + stem, stem + "-wsdl-2", stem * 3 + "-a", stem * 3 + "-b"]
+    for cls, mk in ((suds.cache.ObjectCache, lambda i: {"n": i}),
+                    (suds.cache.DocumentCache, lambda i: Parser().parse(string=("<d n='%d'/>" % i).encode()))):
+        d = tempfile.mkdtemp(dir=workdir)
+        c = cls(location=d)
+        ctx.case(("long-ids", cls.__name__), True)
+        for i, id_ in enumerate(ids):
+            c.put(id_, mk(i))
+        got = []
+        for id_ in ids:
+            g = c.get(id_)
+            got.append(None if g is None else (g["n"] if isinstance(g, dict) else int(g.root().get("n"))))
+        if got != list(range(len(ids))):
+            ctx.fail("two cache ids alias (a lookup returns what was stored under another id)", {"class": cls.__name__,
+                     "ids": ids}, got, list(range(len(ids))))
+        c.purge(ids[0])
+        if c.get(ids[0]) is not None or c.get(ids[1]) is None:
+            ctx.fail("purging one id touched another", {"class": cls.__name__}, [c.get(ids[0]), c.get(ids[1])], [None, "kept"])
     # (c)
     schema = ('<xsd:element name="f"><xsd:complexType><xsd:sequence><xsd:element name="a" type="xsd:string"/></xsd:sequence>'
               '</xsd:complexType></xsd:element>')
